@@ -168,12 +168,15 @@ func (tr *Tr) raw(s string) {
 var defCtr int
 
 func (tr *Tr) define(sortS, term, hint string) string {
-	if tr.pure > 0 || len(term) < 48 && !strings.Contains(term, "\n") {
+	// a conditional value of a sort that occurs inside quantifier patterns (references, slices, heap
+	// arrays): always named, and named by a declared constant (solvers reject `ite` in patterns)
+	condRef := strings.HasPrefix(term, "(ite ") && (sortS == "Int" || sortS == "Slice" || strings.HasPrefix(sortS, "R.") || strings.HasPrefix(sortS, "(Array "))
+	if tr.pure > 0 || len(term) < 48 && !strings.Contains(term, "\n") && !condRef {
 		return term
 	}
 	defCtr++
 	n := fmt.Sprintf("%s~%d", mangle(hint), defCtr)
-	if strings.HasPrefix(sortS, "(Array Int ") && (strings.HasPrefix(term, "(ite ") || strings.Contains(term, "~")) {
+	if condRef || strings.HasPrefix(sortS, "(Array Int ") && (strings.HasPrefix(term, "(ite ") || strings.Contains(term, "~")) {
 		// a heap version built from other definitions (a merge, or a store of a defined value): a
 		// declared name with a defining equation, not a macro -- quantifier patterns mention heap
 		// versions, and a macro would put the `ite`s of its expansion into the pattern
@@ -1154,6 +1157,15 @@ func (tr *Tr) loopNames(fr *frame, li *loopInfo, phiVals map[*ssa.Phi]Val) map[s
 		}
 		if phi.Comment != "" {
 			names[phi.Comment] = phiVals[phi]
+		}
+	}
+	// A value that is a conditional term (a slice or pointer merged from two branches) would put an `ite`
+	// into the quantifier patterns of the clauses that mention the variable, and solvers reject such
+	// patterns: name it by a constant with a defining equation.
+	for k, v := range names {
+		if v.T != "" && v.K == nil && v.Ty != nil && len(v.Tuple) == 0 && !v.Cell && strings.Contains(v.T, "(ite ") {
+			v.T = tr.define(tr.C.sortOf(v.Ty), v.T, "lv_"+mangle(k))
+			names[k] = v
 		}
 	}
 	return names
